@@ -213,16 +213,26 @@ coap_rebuild_pdu_for_proxy(coap_pdu_t *pdu) {
   coap_opt_t *option;
   uint8_t option_value_buffer[15];
   coap_optlist_t *optlist_chain = NULL;
+  coap_optlist_t *opt;
+  coap_binary_t *proxy_uri;
 
   if ((option =
            coap_check_option(pdu, COAP_OPTION_PROXY_URI, &opt_iter)) == NULL)
     return 1;
 
-  /* Need to break down into the component parts, but keep data safe */
+  /*
+   * Need to break down into the component parts, but keep data safe: uri
+   * points into what it was split from, and the option is about to be removed
+   * and others inserted over it.
+   */
+  proxy_uri = coap_new_binary(coap_opt_length(option));
+  if (!proxy_uri)
+    return 0;
+  memcpy(proxy_uri->s, coap_opt_value(option), proxy_uri->length);
   memset(&uri, 0, sizeof(uri));
 
-  if (coap_split_proxy_uri(coap_opt_value(option),
-                           coap_opt_length(option),
+  if (coap_split_proxy_uri(proxy_uri->s,
+                           proxy_uri->length,
                            &uri) < 0 || uri.scheme >= COAP_URI_SCHEME_LAST) {
     coap_log_warn("Proxy URI '%.*s' not decodable\n",
                   coap_opt_length(option),
@@ -257,8 +267,11 @@ coap_rebuild_pdu_for_proxy(coap_pdu_t *pdu) {
                                  &optlist_chain))
       goto error;
   }
-  if (!coap_add_optlist_pdu(pdu, &optlist_chain))
-    goto error;
+  /* (coap_add_optlist_pdu() only appends, and not once there is a payload) */
+  for (opt = optlist_chain; opt; opt = opt->next) {
+    if (!coap_insert_option(pdu, opt->number, opt->length, opt->data))
+      goto error;
+  }
 
   if (!coap_insert_option(pdu,
                           COAP_OPTION_PROXY_SCHEME,
@@ -267,10 +280,12 @@ coap_rebuild_pdu_for_proxy(coap_pdu_t *pdu) {
     goto error;
 
   coap_delete_optlist(optlist_chain);
+  coap_delete_binary(proxy_uri);
   return 1;
 
 error:
   coap_delete_optlist(optlist_chain);
+  coap_delete_binary(proxy_uri);
   return 0;
 }
 
